@@ -84,6 +84,23 @@ def judge_selector(ctx, cssutils, sel, axis, rng, nsdecl):
     except Exception as e:
         ctx.violation('selector.exception', case, {'tb': core.short_tb(e)}, features=feats, site=core.raise_site(e))
         return
+    # written without its comments (keepComments off, also part of the minified preset) it is still the same selector
+    if axis in ('comments', 'all') and got == exp:
+        try:
+            ctx.count('oracle.selector-without-comments')
+            cssutils.ser.prefs.keepComments = False
+            t_nc = s.selectorText
+            cssutils.ser.prefs.useDefaults()
+            s3 = css.Selector(selectorText=(t_nc, nsmap) if nsmap else t_nc)
+            got3 = norm(P.p_selector(s3))
+        except Exception as e:
+            cssutils.ser.prefs.useDefaults()
+            ctx.violation('selector.exception', dict(case, keepComments=False), {'tb': core.short_tb(e)}, features=feats, site=core.raise_site(e))
+            return
+        has_comment = any(t[0] == 'COMMENT' for t in cssutils.tokenize2.Tokenizer().tokenize(t_nc))
+        if got3 != exp or has_comment:
+            ctx.violation('selector.without-comments', dict(case, keepComments=False), {'written': t_nc, 'diff': P.diff(got3, exp)}, features=feats)
+            return
     if got['specificity'] != exp['specificity']:
         ctx.violation('selector.specificity', case, {'got': got['specificity'], 'expected': exp['specificity']}, features=feats)
     elif got != exp:
